@@ -18,7 +18,8 @@ ASSUMPTIONS = [
     "samples with |value| < 1e-100 are flushed to exactly 0 before the call, so every non-zero difference between samples is "
     ">= 1e-116 in magnitude: the code multiplies successive differences and a product below 1e-308 underflows - an implicit "
     "precondition no ground motion violates (DESIGN C11.2: stated, not tested)",
-    "|values| <= 1e9 + offsets up to 2^30 (no overflow in differences)",
+    "|values| <= 1e9 + offsets up to 2^30, optionally rescaled by 2^k with |k| <= 300 (|values| <= 1e100: no overflow in "
+    "differences or their products)",
     "the reference (plateau compression + comparison of neighbouring plateaus) and the statement's validity predicate are "
     "independent encodings of the statement; a disagreement between the two on the same indices is a harness error, not a violation",
     "cycle counter: exact at the reported peaks up to 8*eps*max(1,value) (np.interp arithmetic), linear between them with the "
@@ -57,6 +58,9 @@ def series(case):
     tail = case.get("tail", 0)
     if tail:
         a = np.concatenate([a, np.full(tail, a[-1])])
+    p2 = case.get("pow2")
+    if p2 and spec.get("as") != "int":
+        a = a * 2.0 ** p2  # exact rescaling: the answer does not depend on the unit of the series
     a = np.where(np.abs(a) < FLUSH, 0.0, a)
     if spec.get("as") == "int":
         peak = float(np.max(np.abs(a)))
@@ -83,6 +87,8 @@ def _cases(draw, max_n=5000):
         case["lead"] = draw(st.integers(1, 5))  # leading plateau (of whatever the first value is)
     if draw(st.integers(0, 4)) == 0:
         case["tail"] = draw(st.integers(1, 5))
+    if draw(st.integers(0, 5)) == 0:
+        case["pow2"] = draw(st.sampled_from([-300, -200, -60, -30, 60, 200, 300]))
     return case
 
 
@@ -96,9 +102,13 @@ def _classify(ctx, case, a, r_all, pl):
             ctx.cls("coarse-grid")
         if case.get("offset"):
             ctx.cls("offset")
+        if case.get("pow2") and spec.get("as") != "int":
+            ctx.cls("rescaled")
     ctx.cls(gen.size_class(len(a)))
     if a[0] != 0:
         ctx.cls("nonzero-start")
+    elif len(pl) > 1 and pl[1][2] < 0:
+        ctx.cls("zero-start-then-fall")
     if len(a) > 1 and a[0] == a[1]:
         ctx.cls("lead-plateau")
         nxt = pl[1][2] if len(pl) > 1 else a[0]
@@ -121,9 +131,11 @@ def _check_indices(ctx, a, arg):
         else:
             out = ctx.lib(pc.get_peak_array_indices, arg, ptype=ptype)
         out = np.asarray(out)
-        ctx.check(out.ndim == 1, "ptype=%s: result is not one-dimensional: shape %s" % (ptype, out.shape))
-        ctx.check(out.size == 0 or np.issubdtype(out.dtype, np.integer), "ptype=%s: indices have dtype %s" % (ptype, out.dtype))
-        got[ptype] = [int(i) for i in out]
+        if out.ndim != 1:
+            ctx.fail("ptype=%s: result is not one-dimensional: shape %s" % (ptype, out.shape))
+        if out.size and out.dtype.kind not in "iu":
+            ctx.fail("ptype=%s: indices have dtype %s" % (ptype, out.dtype))
+        got[ptype] = out.tolist()
     # 1. statement as a predicate on the library's answer
     msg = ref.peaks_violation(a, got["all"])
     same = got["all"] == r_all
@@ -131,7 +143,8 @@ def _check_indices(ctx, a, arg):
         raise HarnessError("reference %r and validity predicate disagree on %r for %r" % (r_all, got["all"], a.tolist()[:40]))
     if msg is not None and same:
         raise HarnessError("validity predicate rejects the reference answer %r (%s) for %r" % (r_all, msg, a.tolist()[:40]))
-    ctx.check(msg is None, "ptype=all: %s; got %s, turning-point reference %s" % (msg, _sh(got["all"]), _sh(r_all)))
+    if msg is not None:
+        ctx.fail("ptype=all: %s; got %s, turning-point reference %s" % (msg, _sh(got["all"]), _sh(r_all)))
     # 2. max / min selections
     r_max = [i for i, k in zip(r_all, kinds) if k == "max"]
     r_min = [i for i, k in zip(r_all, kinds) if k == "min"]
@@ -141,8 +154,10 @@ def _check_indices(ctx, a, arg):
         raise HarnessError("max/min reference and predicate disagree for %r" % (a.tolist()[:40],))
     if kmsg is not None and ksame:
         raise HarnessError("max/min predicate rejects the reference answer (%s) for %r" % (kmsg, a.tolist()[:40]))
-    ctx.check(got["max"] == r_max, "ptype=max: got %s, local maxima are %s (%s)" % (_sh(got["max"]), _sh(r_max), kmsg))
-    ctx.check(got["min"] == r_min, "ptype=min: got %s, local minima are %s (%s)" % (_sh(got["min"]), _sh(r_min), kmsg))
+    if got["max"] != r_max:
+        ctx.fail("ptype=max: got %s, local maxima are %s (%s)" % (_sh(got["max"]), _sh(r_max), kmsg))
+    if got["min"] != r_min:
+        ctx.fail("ptype=min: got %s, local minima are %s (%s)" % (_sh(got["min"]), _sh(r_min), kmsg))
     return r_all, kinds
 
 
@@ -159,27 +174,33 @@ def _max_len(tier):
     return 8 if tier == "thorough" else 7
 
 
+ALPHABETS = (range(0, 5), range(-2, 3))
+
+
 def _enum(tier, shard, nshards):
     idx = 0
-    for n in range(2, _max_len(tier) + 1):
-        for tup in itertools.product(range(ALPHABET), repeat=n):
-            mine = idx % nshards == shard
-            idx += 1
-            if mine and min(tup) != max(tup):
-                yield {"v": list(tup)}
+    for alphabet in ALPHABETS:
+        for n in range(2, _max_len(tier) + 1):
+            for tup in itertools.product(alphabet, repeat=n):
+                mine = idx % nshards == shard
+                idx += 1
+                if mine and min(tup) != max(tup):
+                    yield {"v": list(tup)}
 
 
 @enum_clause(CLAUSES, "exhaustive", _enum,
              rule="every sequence over the 5-level alphabet {0,1,2,3,4} of length 2..8 (quick: 2..7) except the constant ones "
-                  "(488 240 / 97 620 series), each with ptype in {all, max, min}; non-trivial = at least one interior extremum",
+                  "(488 240 / 97 620 series), and the same over the centred 5-level alphabet {-2..2} (same rise/fall/flat patterns, "
+                  "but zero-valued and negative first samples, which the plateau compression treats differently), each with "
+                  "ptype in {all, max, min}; non-trivial = at least one interior extremum",
              oracle="reference model (plateau compression, neighbour comparison; exact index equality) cross-checked against the "
                     "statement's validity predicate (ascending, starts at 0, ends at first sample of final run, monotone between, "
                     "direction strictly alternates, first sample of plateau; max/min partition by neighbour comparison)",
-             exhaustive_note="all non-constant sequences over a 5-level alphabet, length 2..8 in the thorough tier (2..7 quick), "
-                             "sharded by enumeration index % nshards",
+             exhaustive_note="all non-constant sequences over the 5-level alphabets {0..4} and {-2..2}, length 2..8 in the thorough "
+                             "tier (2..7 quick): 2 x 488 240 (2 x 97 620) series x 3 ptypes, sharded by enumeration index % nshards",
              require={"lead-plateau": 0.15, "lead-plateau-then-rise": 0.05, "lead-plateau-then-fall": 0.05,
-                      "interior-plateau-extremum": 0.10},
-             min_nontrivial=0.5)
+                      "interior-plateau-extremum": 0.10, "zero-start-then-fall": 0.02},
+             min_nontrivial=0.5, quick_shards=6)
 def exhaustive(case, ctx):
     a, arg = series(case)
     r_all, _ = ref.local_peaks(a)
@@ -194,10 +215,10 @@ def exhaustive(case, ctx):
 @clause(CLAUSES, "random", _cases(), quick=500, thorough=3000,
         rule="records of all kinds (element-wise reals, dyadic, few-level, noise, sines, pulse, step, walk, quake; n 2..5000; "
              "ndarray / int / list), optionally rounded to a coarse grid of 2..9 levels (plateau-rich), shifted by an offset "
-             "(2^k up to 2^30 or a real), with a leading plateau (40 %) and a trailing plateau; "
+             "(2^k up to 2^30 or a real), rescaled by 2^k (|k| <= 300), with a leading plateau (40 %) and a trailing plateau; "
              "non-trivial = at least one interior extremum",
         oracle="reference model (exact index equality) cross-checked against the statement's validity predicate; input unchanged",
-        require={"lead-plateau": 0.25, "interior-plateau-extremum": 0.10, "offset": 0.15, "n>512": 0.10},
+        require={"lead-plateau": 0.25, "interior-plateau-extremum": 0.10, "offset": 0.15, "n>512": 0.10, "rescaled": 0.05},
         min_nontrivial=0.3)
 def random(case, ctx):
     a, arg = series(case)
